@@ -406,6 +406,34 @@ def literal_vs_regex(tier, seed):
             known_or_violation('C09', {'what': 'literal-beaten', 'literal': l},
                                f'literal {l!r} (priority {tables[0].prio}) is not stronger than regex {r!r} ({tables[1].prio}) yet accepted',
                                {'property': 'C09', 'case': case}, report.Evidence('C09', tier, seed, 'other'), 'lvr-' + d.id)
+    # three patterns in every declaration order: the literal, a regex of the same default priority matching the literal's
+    # text, and a weaker regex matching it too (tie detection must not depend on which leaves are adjacent)
+    triples = [('ab', '[a-f][0-9a-f]', '[a-z]+'), ('if', 'i[a-z]', '[a-z]+'), ('==', '=[=!]', '=+'), ('10', '[0-9]{2}', '[0-9a-f]+')]
+    tdefs = []
+    for ti, (l, r, w) in enumerate(triples):
+        items = [('Lit', T(l)), ('Re', R(r)), ('Weak', R(w))]
+        for pi, perm in enumerate(itertools.permutations(range(3))):
+            tdefs.append((l, r, Def(f'lvr3_{ti}_{pi}', variants=[Var(items[k][0], [copy.deepcopy(items[k][1])]) for k in perm])))
+    tverd = pipeline.derive_verdicts([d for _, _, d in tdefs])
+    for l, r, d in tdefs:
+        v = tverd[d.id]
+        tables, recs, req = pipeline.reference_tables(d)
+        data = list(l.encode('utf8'))
+        if tables is None:
+            continue
+        byname = {var.name: t for var, t in zip(d.variants, tables)}
+        lit, others = byname['Lit'], [t for n, t in byname.items() if n != 'Lit']
+        beaten = [t for t in others if t.matches(data, 0, len(data)) and t.prio >= lit.prio]
+        case = {'literal': l, 'order': [var.name for var in d.variants], 'derive': v['status'],
+                'priorities': {n: t.prio for n, t in byname.items()}}
+        cases.append(case)
+        if v['status'] == 'accepted' and beaten:
+            rc = max(rc, 1)
+            known_or_violation('C09', {'what': 'literal-beaten', 'literal': l},
+                               f'literal {l!r} (priority {lit.prio}) in declaration order {case["order"]}: a regex of priority '
+                               f'{beaten[0].prio} matches its text, yet the definition is accepted',
+                               {'property': 'C09', 'case': case, 'source': corpus.render_enum(d)},
+                               report.Evidence('C09', tier, seed, 'other'), 'lvr-' + d.id)
     return {'rc': rc, 'cases': cases, 'defs': [d for d in defs if verdicts[d.id]['status'] == 'accepted']}
 
 
